@@ -99,7 +99,7 @@ def oracle(sp, s):
         Ns = b.evaluate(list(s['ts']), s['d'], s['right'], sparse=True).toarray()
         for i, t in enumerate(s['ts']):
             want = exact.basis_row(s['basis'], t, s['d'], s['right'])
-            if not exact.close(N[i], want, RTOL, ATOL):
+            if not exact.close(N[i], want, RTOL, ATOL + 64 * 2.3e-16 * exact.basis_row_mag(s['basis'], t, s['d'], s['right'])):
                 fails.append('row %d of a multi-point call (t=%r) differs from Cox-de Boor: got %s want %s' % (i, t, N[i].tolist(), [float(x) for x in want]))
                 break
         if not np.allclose(N, Ns, rtol=1e-12, atol=1e-13):
@@ -109,7 +109,10 @@ def oracle(sp, s):
     dense = b.evaluate(s['t'], s['d'], s['right'])
     if dense.shape != (1, len(want)):
         return ['shape %s, expected (1,%d)' % (dense.shape, len(want))]
-    if not exact.close(dense[0], want, RTOL, ATOL):
+    # wrapped images of high derivatives on tiny periodic bases cancel: the tolerance is relative to the
+    # magnitude of the summed terms, not only to the (possibly zero) exact result
+    mag = exact.basis_row_mag(s['basis'], s['t'], s['d'], s['right'])
+    if not exact.close(dense[0], want, RTOL, ATOL + 64 * 2.3e-16 * mag):
         fails.append('row differs from Cox-de Boor: got %s want %s' % (dense[0].tolist(), [float(x) for x in want]))
     sparse = b.evaluate(s['t'], s['d'], s['right'], sparse=True)
     sd = sparse.toarray() if hasattr(sparse, 'toarray') else np.asarray(sparse)
